@@ -144,7 +144,6 @@ def generate_mpo(I, terms=None, opts_svd=None, N=None, f_map=None) -> MpsMpoOBC:
         Iind = [ind_list_tensors(In, unique_ops) for In in I]
         Iind = [Iind[n % len(Iind)] for n in range(N)]
 
-    M = len(terms)
     config = unique_ops[0].config
     sym = config.sym
     #
@@ -172,6 +171,11 @@ def generate_mpo(I, terms=None, opts_svd=None, N=None, f_map=None) -> MpsMpoOBC:
         sites.append(N)
         sitess.append(sites)
         opss.append(ind_list(ops, op_patterns))
+
+    # drop terms that vanish because a product of operators acting on the same site has no blocks
+    keep = [k for k, ind in enumerate(opss) if all(unique_ops[op].size > 0 for op in op_patterns[ind])] or [0]
+    terms, signs, sitess, opss = ([x[k] for k in keep] for x in (terms, signs, sitess, opss))
+    M = len(terms)
 
     n_patterns = [[unique_ops[ind].n for ind in ops] for ops in op_patterns]
     acc_n_patterns = [[sym.add_charges(*ns[n:]) for n in range(len(ns) + 1)] for ns in n_patterns]
